@@ -36,7 +36,7 @@ static bool gen_c20(uint64_t seed, const std::string &tier, uint64_t i, Plan &p)
       if (k == 0) s = "MAIL FROM:<" + std::string((size_t)r.pick(std::vector<int>{899, 900, 901, 1000, 1003, 5000, 100000}), 'a') + "@x>\r\nRCPT TO:<" + std::string((size_t)r.pick(std::vector<int>{899, 900, 901, 1003, 70000}), 'b') + ">\r\nQUIT\r\n";
       else if (k == 1) s = std::string((size_t)r.pick(std::vector<int>{1000, 1023, 1024, 1025, 100000, 1000000}), 'C') + "\r\n" + base;
       else if (k == 2) s = "HELO " + rnd_bytes(r, (size_t)r.range(0, 3000)) + "\r\n" + base;
-      else if (k == 3) s = "MAIL FROM:<@" + std::string(5000, 'r') + ":\"" + std::string(3000, '\\') + "\"@[" + std::string(2000, '1') + "]>\r\nRCPT TO:<x@[999999999999.1.1.1]>\r\nRCPT TO:<x@[1.2.3.4.5.6]>\r\nRCPT TO:<x@[127.0.0.1>\r\n" + base;
+      else if (k == 3) s = "MAIL FROM:<@" + std::string(5000, 'r') + ":\"" + std::string(3000, '\\') + "\"@[" + std::string(2000, '1') + "]>\r\nMAIL FROM:<s@[1.2.3.4.5]>\r\nRCPT TO:<x@[999999999999.1.1.1]>\r\nRCPT TO:<x@[1.2.3.4.5.6]>\r\nRCPT TO:<x@[127.0.0.1>\r\nRCPT TO:<y@[" + [&] { std::string l; int n = (int)r.pick(std::vector<int>{5, 8, 40, 200, 400}); for (int q = 0; q < n; q++) l += (q ? "." : "") + std::to_string(r.below(256)); return l; }() + "]>\r\nRCPT TO:<z@[1.2.3.]>\r\nRCPT TO:<z@[.1.2.3.4]>\r\n" + base;   // (address literals are only parsed once a MAIL was accepted)
       else if (k == 4) { s = "MAIL FROM:<a@b>\r\nRCPT TO:<c@l.example>\r\nDATA\r\n"; for (int q = 0; q < 150; q++) s += "Received: x\r\n"; s += std::string(200000, 'z') + "\r\n.\r\nQUIT\r\n"; }
       else s = mutate(r, base);
       Json ctl = Json::obj(); if (r.chance(0.5)) { Json a = Json::arr(); a.push("l.example"); ctl.set("rcpthosts", a); } if (r.chance(0.3)) ctl.set("databytes", (long long)r.pick(std::vector<int64_t>{1, 100, 4294967295LL}));
@@ -90,6 +90,7 @@ static bool gen_c20(uint64_t seed, const std::string &tier, uint64_t i, Plan &p)
       { std::string sdr = p.knobs.gets("sender"); for (auto &c : sdr) if (!c) c = '0'; p.knobs.set("sender", sdr); }
       if (surface == 5) { Json zone = Json::obj(); Json fail = Json::obj(); std::string kind = r.pick(std::vector<std::string>{"grow", "grow", "shrink", "loop", "cut", "counts", "big", "rdlen", "trunc", "junk", "edge", "edge"}); fail.set("r.example", "garbled:" + kind); zone.set("fail", fail); p.knobs.set("zone", zone); p.label = "qmail-remote garbled dns (" + kind + ")"; }
       else { p.knobs.set("smtproutes", routes); p.label = "qmail-remote hostile server"; }
+      if (r.chance(0.15)) { std::string l; int n = (int)r.pick(std::vector<int>{5, 9, 100, 1000}); for (int q = 0; q < n; q++) l += (q ? "." : "") + std::to_string(r.below(256)); p.knobs.erase("smtproutes"); p.knobs.set("host", "[" + l + "]"); p.label = "qmail-remote literal host with " + std::to_string(n) + " components"; }
       alloc_fault(r, p, "qmail-remote"); break; }
     case 6: {   // helpers: clean requests, spawner commands, corrupt cdb
       p.world = "H"; int k = (int)r.below(3);
